@@ -156,7 +156,7 @@ func isOpaqueType(t types.Type) bool {
 		return false
 	}
 	switch n.Obj().Pkg().Path() + "." + n.Obj().Name() {
-	case "regexp.Regexp", "reflect.Value", "reflect.rtype", "sync.Mutex", "sync.RWMutex", "sync.WaitGroup", "sync.Cond", "sync.Once",
+	case "regexp.Regexp", "reflect.Value", "reflect.rtype", "sync.Mutex", "sync.RWMutex", "sync.WaitGroup", "sync.Once",
 		"github.com/fxamacker/cbor/v2.Encoder", "github.com/fxamacker/cbor/v2.Decoder", "time.Time", "time.Timer":
 		return true
 	}
